@@ -7,9 +7,8 @@
    `norm` (`np.linalg.norm(·, axis=0)` column-wise, values in an ordered field `ρ`), `tri` (triangular solves done by
    `splu` of a triangular matrix), `inner` (coarse-level solver of the multigrid).
 
-   NaN: numpy continues with NaN where exact arithmetic has a division `0/0` (`orth` applied to a zero column,
-   `‖b_j‖ = 0`); the model reports these states as the error `"NaN"` (the real code returns NaNs or raises
-   `LinAlgError` later on — see the defect scripts `corpus/defects/c05_cg_*.py`). -/
+   Models the tree AFTER the repairs f06340d/7a37cb6/156f3c9: `bnorm[bnorm == 0] = 1`, `orth` drops exactly-zero
+   vectors (and may return an (n,0) block), `x0.astype(result_type(rhs, A, x0))` (a no-op in exact arithmetic). -/
 import PymotoVerif.LA.Solvers
 import PymotoVerif.Core.Domain
 
@@ -37,7 +36,7 @@ def orthCols (normalize : Bool) (sqrt : α → α) (lt : α → α → Bool) (rt
     let beta := dotc u u
     withMemoV (orthProject normalize acc u) fun vi =>
     let betaNew := dotc vi vi
-    if beta = 0 then .error "NaN"                                  -- 0/0 in `beta_i_new / beta_i`
+    if beta = 0 then orthCols normalize sqrt lt rtol acc us        -- `beta_i == 0 or …: continue`
     else if lt (betaNew / beta) rtol then orthCols normalize sqrt lt rtol acc us      -- `continue`
     else
       let s := sqrt betaNew
@@ -84,11 +83,15 @@ structure CGResult (α : Type*) (n k : ℕ) where
   iters : ℕ
   trace : List (Mat n k α)  -- `x` after every executed iteration
 
-variable [LinearOrder ρ] [Div ρ]
+variable [LinearOrder ρ] [Div ρ] [Zero ρ] [One ρ]
 
-/-- `tval = norm(r, axis=0) / norm(b, axis=0); tval.max() <= self.tol` (no NaN: `‖b_j‖ ≠ 0` is checked before) -/
+/-- `bnorm = norm(b, axis=0); bnorm[bnorm == 0] = 1.0` -/
+def bnorm (c : CGConfig α ρ n k) (b : Mat n k α) (j : Fin k) : ρ :=
+  if c.norm (fun i => b i j) = 0 then 1 else c.norm (fun i => b i j)
+
+/-- `tval = norm(r, axis=0) / bnorm; tval.max() <= self.tol` -/
 def converged (c : CGConfig α ρ n k) (r b : Mat n k α) : Bool :=
-  (List.finRange k).all fun j => decide (c.norm (fun i => r i j) / c.norm (fun i => b i j) ≤ c.tol)
+  (List.finRange k).all fun j => decide (c.norm (fun i => r i j) / bnorm c b j ≤ c.tol)
 
 variable [Mul α] [AddCommMonoid α] [Star α] [Sub α] [Neg α] [Div α] [One α] [DecidableEq α]
 
@@ -130,8 +133,6 @@ def cgLoop (c : CGConfig α ρ n k) (b : Mat n k α) :
 /-- `CG.solve(rhs, x0, trans)` with `A = op_trans(self.A)` already selected in the configuration -/
 def cgSolve (c : CGConfig α ρ n k) (b : Mat n k α) (x0 : Option (Mat n k α)) : Except String (CGResult α n k) :=
   if k = 0 then .error "ValueError" else                             -- `tval.max()` of an empty array
-  -- a zero column of `b`: `‖b_j‖ = 0`, `tval` is NaN and stays NaN
-  if (List.finRange k).any (fun j => (List.finRange n).all fun i => decide (b i j = 0)) then .error "NaN" else
   let x : Mat n k α := match x0 with
     | some x0 => x0
     | none => 0
